@@ -349,4 +349,43 @@ theorem arc_complete (I : ArcInst) (hw : WF I) (routes : List (List ATup))
       ← List.countP_eq_length_filter, ← List.countP_eq_length_filter]
     exact routes_balance c s (by omega) routes (fun r hr' => (hr r hr').1)
 
+/-! ## non-vacuity -/
+
+/-- `PosTimes` on the reachable instance `nv_I` of C05 (the only customer-to-customer arc `a → b` has time 3) -/
+theorem nv_pos : PosTimes nv_I.g := by unfold PosTimes; decide +kernel
+
+/-- all hypotheses of `arc_routes_cover` hold for the feasible `nv_x` and its move `a@2 → b@6`; the theorem then
+    yields a depot-to-depot route through that move -/
+example : ∃ r, IsDepotRoute r ∧ ((1, 2, 2, 6) : ATup) ∈ r ∧ ∀ u ∈ r, u ∈ sel nv_I nv_x :=
+  arc_routes_cover nv_I nv_wf nv_pos nv_x nv_x_bin (by decide +kernel) _ (by decide +kernel)
+
+/-- hypotheses of `arc_succ_exists_unique` (via `Local`) -/
+example : ∃ m' ∈ sel nv_I nv_x, Linked (0, 0, 1, 2) m' ∧ ∀ m'' ∈ sel nv_I nv_x, Linked (0, 0, 1, 2) m'' → m'' = m' :=
+  arc_succ_exists_unique nv_I nv_wf nv_x ((arc_feasible_iff_local nv_I nv_wf nv_x nv_x_bin).1 (by decide +kernel))
+    _ (by decide +kernel) (by decide)
+
+/-- two vehicles: `d@0 → a@2 → d@6` and `d@0 → b@6 → d@8` -/
+def nv_routes : List (List ATup) := [[(0, 0, 1, 2), (1, 2, 0, 6)], [(0, 0, 2, 6), (2, 6, 0, 8)]]
+
+theorem nv_routes_ok : ∀ r ∈ nv_routes, IsDepotRoute r ∧ ∀ u ∈ r, nv_I.admissible u = true := by
+  intro r hr
+  have : r = [(0, 0, 1, 2), (1, 2, 0, 6)] ∨ r = [(0, 0, 2, 6), (2, 6, 0, 8)] := by simpa [nv_routes] using hr
+  rcases this with rfl | rfl
+  · exact ⟨⟨by simp, ⟨⟨rfl, rfl⟩, by decide, trivial⟩, rfl, rfl⟩, by decide +kernel⟩
+  · exact ⟨⟨by simp, ⟨⟨rfl, rfl⟩, by decide, trivial⟩, rfl, rfl⟩, by decide +kernel⟩
+
+/-- all hypotheses of `arc_complete` hold for `nv_routes`; the indicator is the concrete vector `[1,1,0,0,0,0,1,1,0]`
+    of cost 7 -/
+theorem nv_complete : IsBin nv_I.data.n (indicatorOf nv_I nv_routes.flatten) ∧
+    nv_I.data.feasibleB (indicatorOf nv_I nv_routes.flatten) = true ∧
+    (sel nv_I (indicatorOf nv_I nv_routes.flatten)).Perm nv_routes.flatten :=
+  arc_complete nv_I nv_wf nv_routes nv_routes_ok (by decide +kernel) (by
+    intro c h1 h2
+    have h3 : nv_I.g.nodes.length = 3 := by decide +kernel
+    have : c = 1 ∨ c = 2 := by omega
+    rcases this with rfl | rfl <;> decide +kernel)
+
+example : (List.range 9).map (indicatorOf nv_I nv_routes.flatten) = [1, 1, 0, 0, 0, 0, 1, 1, 0] ∧
+    nv_I.data.objective (indicatorOf nv_I nv_routes.flatten) = 7 := by decide +kernel
+
 end Vrp.C05
